@@ -74,6 +74,15 @@ func (v *VUrl) validate(value string) *VUrl {
 			return v
 		}
 	}
+	existKeys := make(map[string]struct{})
+	// 规则里必填的参数在 url 里不存在
+	defer v.vc.requiredNoExistKeys(v.errBuf, v.ruleObj, func(key string) bool {
+		_, ok := existKeys[key]
+		return ok
+	}, func(key string) string {
+		return key
+	})
+
 	urlQuery := ""
 	queryIndex := strings.Index(decUrl, "?")
 	if queryIndex != -1 {
@@ -106,6 +115,7 @@ func (v *VUrl) validate(value string) *VUrl {
 			}
 		}
 
+		existKeys[key] = struct{}{}
 		validNames := v.ruleObj.Get(key)
 		if validNames == "" {
 			continue
